@@ -39,6 +39,7 @@ func suiteC16ErrPos(cfg Config, res *Result) {
 		"{{ st.A.0.x }}", "{% set v = 2 / z %}", "{% firstof 1/0 %}", "{{ l|join:(1/0) }}", "{% with a=1/0 %}{% endwith %}", "{{ mac(1, 2, 3, 4, 5, 6) }}", "{% widthratio 1 0 1 %}",
 		"{{ s|slice:\"x\" }}", "{{ i|pluralize:\"a,b,c\" }}", "{{ s|pluralize }}", "{{ s|date:\"x\" }}", "{{ s|time:\"x\" }}", "{{ s|yesno:\"a,b,c,d\" }}", "{{ s|yesno:\"a\" }}",
 		"{{ s|rjust:99999999 }}", "{{ s|center:99999999 }}", "{% if s|slice:\"x\" %}{% endif %}", "{% set v = i|pluralize:\"a,b,c\" %}", "{{ f|floatformat:99999 }}",
+		"{% if x -%}\n   hello", "{% for q in l -%}  \n tail", "{% block bb -%}\n\n  body", "{% if x %}a{%- else -%}\n  b", "{% with a=1 -%} \n w",
 		"{{ nosuch|nosuchfilter }}", "{% nosuchtag %}", "{{ 1 + }}", "{% if %}{% endif %}", "{{ \"a\\\"b\"|nosuchfilter }}", "{{ 'x\\\\y\\\"z'|nosuch2 }}", "{% for %}", "{{ x..y }}", "{% include %}"}
 	pad := func() string {
 		k := rng.Intn(4)
@@ -64,7 +65,7 @@ func suiteC16ErrPos(cfg Config, res *Result) {
 			sub := pad() + rng.Pick(bad) + pad()
 			files := map[string]string{}
 			var src string
-			switch rng.Intn(4) {
+			switch rng.Intn(5) {
 			case 0:
 				files["sub.tpl"] = sub
 				src = pad() + `{% include "sub.tpl" %}`
@@ -74,6 +75,10 @@ func suiteC16ErrPos(cfg Config, res *Result) {
 			case 2:
 				files["base.tpl"] = "B\n" + pad() + "{% block c %}" + sub + "{% endblock %}\n"
 				src = `{% extends "base.tpl" %}` + pad() + "{% block d %}x{% endblock %}"
+			case 3:
+				// the macro lives in another file than the call that is wrong
+				files["lib.tpl"] = pad() + "{% macro lm(a) export %}x{% endmacro %}" + pad()
+				src = pad() + `{% import "lib.tpl" lm %}` + pad() + rng.Pick([]string{"{{ lm(1, 2, 3) }}", "{{ lm(1/0) }}", "{% if lm(1, 2) %}{% endif %}", "{{ lm(s.x.y) }}"}) + pad()
 			default:
 				files["lib.tpl"] = pad() + "{% macro lm() export %}" + sub + "{% endmacro %}"
 				src = pad() + `{% import "lib.tpl" lm %}` + pad() + "{{ lm() }}"
